@@ -11,7 +11,7 @@ for d in /verif/seeded/*/; do
   prop=$(python3 -c "import json;print(json.load(open('$d/meta.json'))['property'])")
   git -C $wt checkout -q -- . && git -C $wt clean -fdq
   if ! git -C $wt apply $d/patch.diff 2>/dev/null; then echo "$id $prop PATCH-DOES-NOT-APPLY" >> /verif/seed_sweep.log; continue; fi
-  out=$(/verif/check.sh $prop $tier --no-evidence --repo $wt 2>&1)
+  out=$(/verif/check.sh $prop $tier --no-evidence --repo $wt --work work-sweep 2>&1)
   v=$(echo "$out" | grep -c "^VIOLATION")
   i=$(echo "$out" | grep -c "^INCONCLUSIVE")
   o=$(echo "$out" | grep -c "^OK")
